@@ -112,11 +112,11 @@ def render_helpers(c: Dict[str, Any], role: str, out: List[str]) -> None:
 
 
 def deco_text(kind: str, c: Dict[str, Any]) -> str:
+    if kind == "foreign":
+        return "@foreign({!r})".format(c)
     cid = c["id"]
     form = c.get("form", "def")
     args = c.get("args", [])
-    if kind == "foreign":
-        return "@foreign({!r})".format(c)
     if kind == "snap":
         if form == "lambda":
             fn = "lambda {}: HUB.capture({!r}, {})".format(", ".join(args), cid, got_text(args))
